@@ -86,5 +86,5 @@ func c12InfoIndex(r *Run) {
 			return true
 		})
 	}
-	r.Require(R, 3)
+	r.Require(R, 2)
 }
